@@ -223,7 +223,14 @@ def run(ctx):
                 nibabel.save(nibabel.Nifti1Image(raw2, A2, dtype=raw2.dtype), path2)
                 snap = {n: open(os.path.join(dest, n), "rb").read() for n in ("info_fullres.json", "transform.json")}
                 try:
-                    rc2 = volume_reader.volume_file_to_info(path2, dest, options=opts)
+                    if rng.random() < 0.5:
+                        from neuroglancer_scripts.scripts import volume_to_precomputed as _cli2
+                        try:
+                            rc2 = _cli2.main(["volume-to-precomputed", "--generate-info", path2, dest])
+                        except SystemExit as exc:
+                            rc2 = exc.code
+                    else:
+                        rc2 = volume_reader.volume_file_to_info(path2, dest, options=opts)
                 except Exception:  # noqa
                     rc2 = "raised"
                 now = {n: open(os.path.join(dest, n), "rb").read() for n in ("info_fullres.json", "transform.json")}
